@@ -24,6 +24,11 @@ CHECKS = {
     technique="TLA+ model of index keys and best-match selection (Match.tla) model-checked by TLC (IndexTransparent); TLC-generated databases replayed through Database::from_str + find_best_match; recorded lookups trace-validated by TLC (TV_C02: reported = SelectBest(distances of all entries))",
     text="TLC proves on the index model that candidate lookup equals a full scan for every database of up to three signatures over a vocabulary mixing wildcard and concrete IP version, payload class and HTTP version, and shows the model rejects the historical HTTP `*` defect; the same databases (as p0f text, three label groupings, all four tables) and the bundled database are then queried through the real code, which reports its own distance for every entry, and TLC checks for every lookup that the reported entry is the first one of minimal distance with that distance's quality, and that nothing is reported iff nothing accepts.",
     note="Trusted: TLC, SelectBest in Match.tla, the implementation's calculate_distance as the scan oracle (judged separately by C12), pointer identity to locate the reported entry."),
+ "C03": dict(
+    level="model_checking", design="§5 C03",
+    technique="TLA+ transcription of the p0f field definitions (TcpExtract.tla) with wire rendering (Frames.tla); TLC enumerates header classes, TTLs and option sequences and the expected observation; vectors replayed through parse_packet + process_ipv4/6_packet; exhaustive window-classification table validated by TLC (TV_C03W)",
+    text="TLC enumerates the header space in factors (all 256 flag bytes x DF/ID/ECN/reserved/flow/seq/ack/urgent cases for IPv4 and IPv6; all 256 TTLs x version x payload x Ethernet/raw/loopback framing x IHL; all option sequences up to length 3 (4 in thorough) in four padding styles on SYN and SYN+ACK), renders each to wire bytes, and assigns role, every signature field, MTU and link label from the specification; the real analyzer must agree field by field, deviations being accepted only where a recorded finding predicts exactly that output. All 65536 windows per (MSS, header term, timestamp, version) case are classified by the real code and each checked by TLC.",
+    note="Trusted: TLC, TcpExtract/Frames, harness projection. Window priority is CodeDerived. Quirks compared as sets. Malformed option areas are left to C01."),
 }
 
 NOT_YET = {}
